@@ -154,6 +154,14 @@ class Gen(object):
             return ["dict", [[k, s] for k, s in zip(keys, kids)]]
         return [t, kids]
 
+    def _may_fail(self, struct):
+        for l in lang.iter_leaves(struct):
+            if l[0] in ("err", "junk") or (l[0] == "lazy" and l[2] == "raise"):
+                return True
+            if l[0] == "item" and ("%s:%s" % (l[1], l[2])) in self.faults:
+                return True
+        return False
+
     def ctxspec(self):
         rnd = self.rnd
         t = rnd.choice(self.p["ctxs"])
@@ -181,7 +189,11 @@ class Gen(object):
         for _ in range(n):
             op = _wchoice(rnd, w)
             if op == "yield_":
-                out.append(["yield", self.struct(nid, depth, 0)])
+                st = ["yield", self.struct(nid, depth, 0)]
+                if self.p.get("p_wrap", 0) and rnd.random() < self.p["p_wrap"] and self._may_fail(st[1]):
+                    handler = self.block(nid, depth, bdepth + 1, 2, allow_yield) if rnd.random() < 0.5 else []
+                    st = ["try", [st], rnd.choice(["exc", "base", "base"]), handler, rnd.random() < 0.3]
+                out.append(st)
             elif op == "sync":
                 c = self.callee(nid, depth)
                 if c is None:
@@ -193,9 +205,12 @@ class Gen(object):
                 break
             elif op == "try_":
                 body = self.block(nid, depth, bdepth + 1, 3, allow_yield)
-                if rnd.random() < 0.5:
-                    body.append(["raise", self.new_site("r"), rnd.choice(self.p["exc_cls"])])
                 kind = rnd.choice(self.p["try_kinds"])
+                if rnd.random() < self.p.get("p_try_raise", 0.5):
+                    cls = rnd.choice(self.p["exc_cls"])
+                    body.append(["raise", self.new_site("r"), cls])
+                    if rnd.random() < self.p.get("p_try_matches", 0.8):
+                        kind = "base" if cls == "base" else rnd.choice(["exc", "exc", "base"])
                 handler = (
                     self.block(nid, depth, bdepth + 1, 2, allow_yield)
                     if kind != "none" and rnd.random() < 0.6
